@@ -190,36 +190,7 @@ def run(repo: Repo, chk: Check):
               f"the colouring loop iterates {[norm(lp.iter) for lp in loops]}, not the list sorted by start", None, wc)
 
     # ------------------------------------------------------------ R04.d
-    comps = [c for c in ast.walk(lf) if isinstance(c, ast.ListComp) or isinstance(c, ast.GeneratorExp)]
-    widened = None
-    for c in comps:
-        if isinstance(c.elt, ast.Call) and norm(c.elt.func) == "get_loop_ancestor" and len(c.generators) == 1:
-            src = norm(c.generators[0].iter)
-            par = getattr(c, "parent", None)
-            if isinstance(par, ast.Assign) and isinstance(par.targets[0], ast.Name):
-                widened = (par.targets[0].id, src, c)
-    if widened is None:
-        chk.bad("R04.d", "types:IC10Register.lifetime:widening to the enclosing loop", "no comprehension applying get_loop_ancestor to the reading/writing nodes found: "
-                "a variable used inside a loop would be released before the next iteration reads it", None, wl)
-    else:
-        name, src, c = widened
-        chk.judge("R04.d", "types:IC10Register.lifetime:widening covers readers and writers", "nodes_reading" in src and "nodes_writing" in src,
-                  f"get_loop_ancestor is applied to {src} only", {"source": src}, wl)
-        # every min()/max() over line numbers iterates the widened list
-        mm = [x for x in ast.walk(lf) if isinstance(x, ast.Call) and norm(x.func) in ("min", "max") and x.args and isinstance(x.args[0], (ast.GeneratorExp, ast.ListComp))]
-        ok = bool(mm) and all(norm(x.args[0].generators[0].iter) == name for x in mm)
-        chk.judge("R04.d", "types:IC10Register.lifetime:line numbers are taken from the widened nodes only", ok,
-                  f"min/max iterate {[norm(x.args[0].generators[0].iter) for x in mm]}, expected the widened list {name}", None, wl)
-        # get_loop_ancestor itself returns the enclosing For/While
-        u = repo.mod("utils")
-        gl = u.func("get_loop_ancestor")
-        chk.saw("utils", "get_loop_ancestor")
-        rets = [norm(r.value) for r in ast.walk(gl) if isinstance(r, ast.Return) and r.value is not None]
-        has_loop_ret = any(isinstance(i, ast.If) and "nodes.For" in norm(i.test) and "nodes.While" in norm(i.test) and
-                           any(isinstance(r, ast.Return) and isinstance(r.value, ast.Name) and r.value.id != gl.args.args[0].arg for r in i.body)
-                           for i in ast.walk(gl) if isinstance(i, ast.If))
-        chk.judge("R04.d", "utils:get_loop_ancestor:returns the enclosing for/while loop", has_loop_ret,
-                  f"get_loop_ancestor returns {rets}: expected the nearest enclosing For or While", None, f"{u.path}:{gl.lineno}")
+    r04d(repo, chk, t, lf, lcfg, lrd, wl)
 
     # ------------------------------------------------------------ R04.e
     rule_module_lifetime(repo, chk, "R04.e")
@@ -430,3 +401,179 @@ def _derives_from_range(e, nid, rd, single, depth=0):
             return True, max(r[1] for r in res), " | ".join(r[2] for r in res)
         return _derives_from_range(dd.value, dd.node, rd, single, depth + 1)
     return False, None, norm(e)
+
+
+# ---------------------------------------------------------------------- R04.d
+def r04d(repo, chk, t, lf, lcfg, lrd, wl):
+    """Accesses are widened to the loops that repeat them before line numbers are taken."""
+    def resolve(e, at):
+        """follow a local bound once to its defining expression"""
+        if isinstance(e, ast.Name):
+            ids = live_ids(lcfg, at)
+            ds = lrd.at(ids[0], e.id) if ids else []
+            if len(ds) == 1 and ds[0].kind == "assign" and not ds[0].index and ds[0].value is not None:
+                return ds[0].value
+        return e
+
+    comps = [c for c in ast.walk(lf) if isinstance(c, (ast.ListComp, ast.GeneratorExp))]
+    widened = None
+    for c in comps:
+        if isinstance(c.elt, ast.Call) and norm(c.elt.func) == "get_loop_ancestor" and len(c.generators) == 1 and c.elt.args:
+            par = getattr(c, "parent", None)
+            if isinstance(par, ast.Assign) and isinstance(par.targets[0], ast.Name):
+                widened = (par.targets[0].id, c)
+    if widened is None:
+        chk.bad("R04.d", "types:IC10Register.lifetime:widening to the enclosing loop", "no comprehension applying get_loop_ancestor to the reading/writing nodes found: "
+                "a variable used inside a loop would be released before the next iteration reads it", None, wl)
+        return
+    name, c = widened
+    gen = c.generators[0]
+    src = norm(resolve(gen.iter, c))
+    ok_src = "nodes_reading" in src and "nodes_writing" in src and not gen.ifs and isinstance(gen.target, ast.Name) and norm(c.elt.args[0]) == gen.target.id
+    chk.judge("R04.d", "types:IC10Register.lifetime:widening covers readers and writers", ok_src,
+              f"get_loop_ancestor is applied to {norm(c.elt.args[0])} for the elements of {src}" + (" that satisfy a filter" if gen.ifs else "") + ": expected every reading and writing node",
+              {"source": src}, wl)
+    # every min()/max() over line numbers iterates the widened list
+    mm = [x for x in ast.walk(lf) if isinstance(x, ast.Call) and norm(x.func) in ("min", "max") and x.args and isinstance(x.args[0], (ast.GeneratorExp, ast.ListComp))]
+    ok = bool(mm) and all(norm(x.args[0].generators[0].iter) == name for x in mm)
+    chk.judge("R04.d", "types:IC10Register.lifetime:line numbers are taken from the widened nodes only", ok,
+              f"min/max iterate {[norm(x.args[0].generators[0].iter) for x in mm]}, expected the widened list {name}", None, wl)
+
+    # ---- get_loop_ancestor
+    u = repo.mod("utils")
+    gl = u.func("get_loop_ancestor")
+    chk.saw("utils", "get_loop_ancestor")
+    wg = f"{u.path}:{gl.lineno} in get_loop_ancestor"
+    gcfg, grd = fn_ctx(gl)
+    params = [a.arg for a in gl.args.args]
+    param = params[0]
+    acc_param = params[1] if len(params) > 1 else None
+    # the walk variable and where the walk starts
+    walk_vars = {}
+    for lp in ast.walk(gl):
+        if isinstance(lp, ast.For) and isinstance(lp.target, ast.Name):
+            walk_vars[lp.target.id] = ("iter", lp.iter, lp)
+        if isinstance(lp, ast.While):
+            for st in ast.walk(lp):
+                if isinstance(st, ast.Assign) and len(st.targets) == 1 and isinstance(st.targets[0], ast.Name) and isinstance(st.value, ast.Attribute) and st.value.attr == "parent" \
+                        and norm(st.value.value) == st.targets[0].id:
+                    v = st.targets[0].id
+                    inits = [d.value for d in grd.all_defs if d.name == v and d.kind == "assign" and d.value is not None and d.value is not st.value]
+                    if len(inits) == 1:
+                        walk_vars[v] = ("start", inits[0], lp)
+    if not walk_vars:
+        raise AnalysisError("get_loop_ancestor: the walk over the ancestors was not recognised")
+    # tests that recognise a loop node
+    def loop_kinds(e):
+        """nodes.For / (nodes.For, nodes.While) / a module constant holding such a tuple -> {'For', 'While', ...} or None"""
+        if isinstance(e, ast.Attribute):
+            return {e.attr}
+        if isinstance(e, ast.Tuple):
+            out = set()
+            for x in e.elts:
+                k = loop_kinds(x)
+                if k is None:
+                    return None
+                out |= k
+            return out
+        if isinstance(e, ast.Name) and e.id in u.assigns and len(u.assigns[e.id]) == 1 and isinstance(u.assigns[e.id][0], ast.Assign):
+            return loop_kinds(u.assigns[e.id][0].value)
+        return None
+
+    matches = []
+    covered, conditional = set(), {}
+    for i in ast.walk(gl):
+        if not isinstance(i, ast.If):
+            continue
+        disj = i.test.values if isinstance(i.test, ast.BoolOp) and isinstance(i.test.op, ast.Or) else [i.test]
+        hit = False
+        for dj in disj:
+            atoms = dj.values if isinstance(dj, ast.BoolOp) and isinstance(dj.op, ast.And) else [dj]
+            kinds, extra = set(), []
+            for at in atoms:
+                if isinstance(at, ast.Call) and norm(at.func) == "isinstance" and len(at.args) == 2 and isinstance(at.args[0], ast.Name) and at.args[0].id in walk_vars:
+                    k = loop_kinds(at.args[1])
+                    if k is None:
+                        raise AnalysisError(f"get_loop_ancestor: node types in {norm(at)} not resolved")
+                    kinds |= k
+                    wv_ = at.args[0].id
+                else:
+                    extra.append(at)
+            kinds &= {"For", "While"}
+            if not kinds:
+                continue
+            hit = True
+            if extra:
+                for k in kinds:
+                    conditional.setdefault(k, []).append(" and ".join(norm(x) for x in extra))
+            else:
+                covered |= kinds
+        if hit:
+            i.walk_var = wv_
+            matches.append(i)
+    if not matches:
+        raise AnalysisError("get_loop_ancestor: no test recognising For / While ancestors found")
+    for k in ("For", "While"):
+        if k in covered:
+            chk.ok("R04.d", f"utils:get_loop_ancestor:an enclosing {k} loop is recognised", None)
+        elif k in conditional:
+            chk.bad("R04.d", f"utils:get_loop_ancestor:an enclosing {k} loop is recognised",
+                    f"an enclosing nodes.{k} is taken as the loop of an access only when {conditional[k]}: in the other case the access is not widened to that loop, "
+                    f"the value is released inside the loop and the next iteration reads a clobbered register", {"condition": conditional[k]}, wg)
+        else:
+            chk.bad("R04.d", f"utils:get_loop_ancestor:an enclosing {k} loop is recognised",
+                    f"no test of get_loop_ancestor accepts nodes.{k}: accesses inside such a loop are not widened to it", None, wg)
+    if not matches:
+        return
+    for m_ in matches:
+        wv = m_.walk_var
+        kind, e, walk_loop = walk_vars[wv]
+        t_ = norm(e)
+        # (1) every proper ancestor is visited
+        if kind == "iter" and t_ == f"{param}.node_ancestors()" or kind == "start" and t_ in (f"{param}.parent", f"{param}.statement()", f"{param}.statement(future=True)", param):
+            chk.ok("R04.d", "utils:get_loop_ancestor:the walk starts at the node's own parent", {"start": t_})
+        elif t_.startswith(f"{param}.statement(") and t_.endswith(".parent") or t_.startswith(f"{param}.parent.parent") or t_.startswith(f"{param}.scope()") or t_.startswith(f"{param}.frame()"):
+            chk.bad("R04.d", "utils:get_loop_ancestor:the walk starts at the node's own parent",
+                    f"the search for the enclosing loop starts at {t_}: for a name in the header of a loop (the test of 'while i < limit', the iterable of a for) the statement is "
+                    f"the loop itself, so that loop is skipped and the value's lifetime ends at the header line although the header is evaluated again on every iteration",
+                    {"start": t_}, wg)
+        else:
+            raise AnalysisError(f"get_loop_ancestor: ancestor walk starting at {t_} not understood")
+        # (2) the matched loop is what comes back: returned directly or stored in the variable that is returned
+        rets = [r for r in ast.walk(gl) if isinstance(r, ast.Return) and r.value is not None]
+        ret_names = {r.value.id for r in rets if isinstance(r.value, ast.Name)}
+        stores = [st for st in ast.walk(m_) if isinstance(st, ast.Assign) and len(st.targets) == 1 and isinstance(st.targets[0], ast.Name) and st.targets[0].id in ret_names
+                  and isinstance(st.value, ast.Name) and st.value.id == wv]
+        direct = [r for r in ast.walk(m_) if isinstance(r, ast.Return) and isinstance(r.value, ast.Name) and r.value.id == wv]
+        chk.judge("R04.d", "utils:get_loop_ancestor:the loop that was found is returned", bool(stores or direct),
+                  "the loop node recognised by the isinstance test is neither returned nor stored in the returned variable", None, wg)
+        # (3) the search goes on to the outer loops as long as an access of the same value lies outside the loop found
+        stops = []   # (statement that ends the walk, its condition inside the match body or None)
+        def scan(stmts, cond):
+            for st in stmts:
+                if isinstance(st, (ast.Return, ast.Break)):
+                    stops.append((st, cond))
+                elif isinstance(st, ast.If):
+                    scan(st.body, st.test if cond is None else ast.BoolOp(op=ast.And(), values=[cond, st.test]))
+                    scan(st.orelse, ast.UnaryOp(op=ast.Not(), operand=st.test))
+        scan(m_.body, None)
+        key = "utils:get_loop_ancestor:outer loops are searched while an access lies outside the loop found"
+        if not stops:
+            chk.ok("R04.d", key, {"stops": "never: the outermost loop of the function is returned"})
+        else:
+            for st, cond in stops:
+                if cond is None:
+                    chk.bad("R04.d", key, "the search stops at the nearest enclosing loop: a value written before an outer loop and read only inside an inner loop is released "
+                            "after the inner loop, a value born later in the outer loop's body takes its register, and the next iteration of the outer loop reads the clobbered register",
+                            None, wg)
+                    continue
+                txt = norm(cond)
+                inside = acc_param is not None and acc_param in {n.id for n in ast.walk(cond) if isinstance(n, ast.Name)} and "parent_of" in txt and txt.startswith("all(")
+                if not inside:
+                    raise AnalysisError(f"get_loop_ancestor: condition that ends the search for an outer loop not understood: {txt[:80]}")
+                # the caller has to hand over all accesses
+                arg2 = c.elt.args[1] if len(c.elt.args) > 1 else next((k.value for k in c.elt.keywords if k.arg == acc_param), None)
+                src2 = norm(resolve(arg2, c)) if arg2 is not None else None
+                chk.judge("R04.d", key, src2 is not None and "nodes_reading" in src2 and "nodes_writing" in src2,
+                          f"the search for an outer loop ends when all of '{acc_param}' lie inside the loop found, but lifetime passes {src2 or 'nothing (the default: no accesses)'} "
+                          f"for it: expected every reading and writing node of the value", {"accesses_argument": src2}, wl)
